@@ -402,6 +402,94 @@ def random_histories(env, count):
 
 # ---------------------------------------------------------------------------------------
 
+# ---------------------------------------------------------------------------------------
+# printing: the text of a lazy list never depends on what was observed before
+# ---------------------------------------------------------------------------------------
+
+PRINT_ITEMS = [1, 0, -2, "ab", "", "c", "`", [1, "a"], [], ["x", [2]]]
+PRINT_PEEKS = [("len",), ("index", 0), ("index", 1), ("index", -1), ("bool",), ("has_ind", 1), ("slice", 0, 2, None),
+               ("iter",), ("next",), ("contains", "ab"), ("count", 1)]
+
+
+def print_case(item):
+    """(src, peeks, vyxal_lists) -> (text printed by the lazy list after the peeks, text printed by the plain list)"""
+    import contextlib
+    import io
+    from vyxal.context import Context
+    from vyxal.elements import vy_print
+    from vyxal.LazyList import LazyList
+    src, peeks, vyl = item
+    out = []
+    for lazy in (True, False):
+        ctx = Context()
+        ctx.vyxal_lists = vyl
+        stack = []
+        ctx.stacks.append(stack)
+        val = LazyList(iter(list(src))) if lazy else list(src)
+        if lazy:
+            for op in peeks:
+                try:
+                    if op[0] == "len":
+                        len(val)
+                    elif op[0] == "index":
+                        val[op[1]]
+                    elif op[0] == "bool":
+                        bool(val)
+                    elif op[0] == "has_ind":
+                        val.has_ind(op[1])
+                    elif op[0] == "slice":
+                        list(val[slice(op[1], op[2], op[3])])
+                    elif op[0] == "iter":
+                        list(iter(val))
+                    elif op[0] == "next":
+                        next(val)
+                    elif op[0] == "contains":
+                        op[1] in val
+                    elif op[0] == "count":
+                        val.count(op[1])
+                except Exception:  # noqa: BLE001 - a peek that raises (empty list) is still a peek
+                    pass
+        buf = io.StringIO()
+        try:
+            with contextlib.redirect_stdout(buf):
+                vy_print(val, "", ctx=ctx)
+            out.append(buf.getvalue())
+        except Exception as e:  # noqa: BLE001
+            out.append("EXC:" + type(e).__name__)
+    return out
+
+
+def print_oracle(env):
+    rng = env.rng
+    items = []
+    # every single peek, and no peek, before printing, on short mixed lists
+    shorts = [list(t) for n in range(0, 3) for t in itertools.product(PRINT_ITEMS[:7], repeat=n)]
+    shorts += [[rng.choice(PRINT_ITEMS) for _ in range(rng.randint(1, 5))] for _ in range(env.budget(60, 600))]
+    for src in shorts:
+        for vyl in (True, False):
+            items.append((src, (), vyl))
+            for pk in PRINT_PEEKS:
+                if pk[0] == "next":
+                    continue            # next() consumes an item: the printed list is then a different list
+                items.append((src, (pk,), vyl))
+            for _ in range(2):
+                ks = tuple(p for p in (rng.choice(PRINT_PEEKS) for _ in range(rng.randint(2, 4))) if p[0] != "next")
+                items.append((src, ks, vyl))
+    res = V.pmap(print_case, items, timeout=20)
+    bad = 0
+    for (src, peeks, vyl), (st, val) in zip(items, res):
+        if st != "ok":
+            env.fail({"kind": "print", "source": src, "peeks": list(peeks), "vyxal_lists": vyl}, f"printing did not finish: {st} {val}", cls="C13:print")
+            continue
+        lazy_text, list_text = val
+        if lazy_text != list_text:
+            bad += 1
+            env.fail({"kind": "print", "source": src, "peeks": [list(p) for p in peeks], "vyxal_lists": vyl},
+                     f"the lazy list prints {lazy_text!r} after these observations, the plain list prints {list_text!r}", cls="C13:print")
+    env.count(len(items), (f"print:{src}|{peeks}|{vyl}" for src, peeks, vyl in items if peeks and src))
+    env.note("print_cases", {"total": len(items), "differ": bad, "items": "ints, strings (also empty / a back-quote), nested lists"})
+
+
 def run(env):
     V.import_repo()
     import vyxal.helpers  # noqa: F401  (import order: helpers first, LazyList imports it back)
@@ -498,6 +586,9 @@ def run(env):
     env.note("cells_per_history_distribution", {str(k): v for k, v in sorted(cellhist.items())})
     env.note("random_histories", len(rcases))
     env.note("random_source_lengths", dict(sorted(collections.Counter(len(c[0]) for c in rcases).items())))
+    print_oracle(env)
+    env.assume("printing (LazyList.output) is outside the Coq model, whose cells hold integers: the oracle alone compares the printed text of a "
+               "lazy list of ints / strings / nested lists after observations with the printed text of the plain list")
     env.assume("sources are finite sequences of Python ints (vyxalify is the identity on them); LazyList(list) so raw_object is a list iterator")
     env.assume("lazy results (open slices, reversed, iter) are forced at the moment they are returned; an iterator held across later "
                "observations is covered by deep_copy, which is exactly such an iterator (itertools.tee over __iter__)")
